@@ -1,14 +1,27 @@
-"""C12: the RCU lock-free queue (cds_lfq_*_rcu) is a linearizable FIFO; dummies never escape and are reclaimed after a grace period."""
+"""C12: the RCU lock-free queue (cds_lfq_*_rcu) is a linearizable FIFO; dummies never escape and are reclaimed after a grace period.
+
+Known finding C12-head-overtakes-tail (known_findings.jsonl): _cds_lfq_dequeue_rcu() never helps q->tail, so q->head can overtake
+q->tail; the removed node stays reachable through q->tail and a late enqueuer dereferences it after its grace period.  Lfq.tla tracks
+exactly that pattern apart (ghosts ovt/stale, invariant NoStaleTailDeref); it is reported with the finding's key, everything else
+(any other use-after-free, linearizability, conservation, unexplained traces) is an ordinary violation.
+Repair candidate (Lfq with HelpTail = TRUE: dequeue loads q->tail and, when it equals head, cmpxchg's it to next before moving q->head):
+which of the two variants the library under test implements is found by a probe run of the driver (does a dequeue load q.tail before its
+cmpxchg on q.head?), VERIF_LFQ_HELPTAIL=0/1 overrides.  For the repaired variant there is no exemption: NoStaleTailDeref and NoOvertake
+are ordinary invariants and the stored schedules of the finding are not replayed."""
+import os, re, json, shutil
 from vlib import *
 import vlib, conc
 
 LEVEL = "model_checking"
+KEY = "C12-head-overtakes-tail"
+HELPTAIL = False            # set by configure()
 ASSUMPTIONS = ["x86-TSO memory model (Sewell et al.); compiler honours volatile/atomic accesses and asm barriers; the algorithm's shared stores are all seq_cst cmpxchg, "
                "plain stores (node initialisation) are committed in program order (runtime L-B semantics), so TSO and SC runs coincide for this component",
                "serialised execution: scheduling points are the hooked shared accesses, watched plain accesses, blocking calls and the start of every driver operation",
                "RCU is abstract (harness/absrcu.h = grace period waits for exactly the read-side sections open at its start); the real flavors' grace periods are C01's claim",
                "API preconditions are the scenario's responsibility: enqueue/dequeue inside a read-side critical section, a dequeued node freed or re-enqueued only after "
                "synchronize_rcu, destroy only when no other operation is in flight",
+               "known finding %s is tracked apart (NoStaleTailDeref); after such a dereference the model assumes the freed block still holds its last contents" % KEY,
                "bounds: 1 queue, <= 3 user nodes, <= 3 threads, <= 4 operations per thread, <= 6 dummy allocations"]
 
 WORKERS = 8
@@ -33,23 +46,220 @@ def lfq_program(sc):
     return "\n".join(out) + "\n"
 
 
-LFQ = {
-    "spec": "Lfq", "driver": "d_lfq.c", "trace": "LfqTrace",
-    "invariants": ["Linearizable", "NoUseAfterFree", "NoDummyReturned", "Conservation", "NoLeak"],
-    "mc_invariants": ["DeadlockFree"], "constraints": ["SBBound"],
-    "consts": lambda sc: {"Threads": tla(set(sc["threads"])), "Prog": tla_fun(sc["threads"]), "SBMax": str(sc.get("sbmax", 2)),
-                          "MaxDm": str(sc.get("maxdm", 4))},
-    "program": lfq_program,
-}
+def _consts(sc):
+    return {"Threads": tla(set(sc["threads"])), "Prog": tla_fun(sc["threads"]), "SBMax": str(sc.get("sbmax", 2)),
+            "MaxDm": str(sc.get("maxdm", 4)), "HelpTail": "TRUE" if HELPTAIL else "FALSE"}
 
-QUICK = ["lfq_2e1d", "lfq_lag", "lfq_empty", "lfq_destroy", "lfq_recycle"]
-THOROUGH = QUICK
+
+MAIN_INV = ["Linearizable", "NoUseAfterFree", "NoDummyReturned", "Conservation", "NoLeak"]
+LFQ = {}
+LFQ_K = {}
+
+
+def configure(help_tail):
+    global HELPTAIL
+    HELPTAIL = bool(help_tail)
+    LFQ.clear()
+    LFQ.update({
+        "spec": "Lfq", "driver": "d_lfq.c", "trace": "LfqTrace", "variant": "_ht" if HELPTAIL else "",
+        "invariants": MAIN_INV + (["NoStaleTailDeref", "NoOvertake"] if HELPTAIL else []),
+        "mc_invariants": ["DeadlockFree"], "constraints": ["SBBound"],
+        "consts": _consts, "program": lfq_program,
+    })
+    # the known finding's own invariant, checked apart so that it never hides (or is hidden by) anything else
+    LFQ_K.clear()
+    LFQ_K.update(dict(LFQ, variant="_k", invariants=["NoStaleTailDeref"], mc_invariants=[]))
+
+
+configure(False)
+
+
+def detect_variant(ctx, exe, wd):
+    """Probe run (one thread: enq n1; deq): the repaired dequeue loads q.tail between its loads of head->next and its cmpxchg on q.head."""
+    env = os.environ.get("VERIF_LFQ_HELPTAIL")
+    if env not in (None, ""):
+        return env != "0"
+    pf = os.path.join(wd, "probe.txt"); open(pf, "w").write("thread p\nenq n1\ndeq\n")
+    tp = os.path.join(wd, "probe.ndjson")
+    rc, so, se = run_driver(exe, [0, 0, tp, pf], timeout=30)
+    if rc != 0:
+        return False
+    ev = [e for e in read_trace(tp) if e.get("t") == "p"]
+    k = [j for j, e in enumerate(ev) if e.get("op") == "call" and e.get("api") == "deq"]
+    deq = ev[k[0]:] if k else []
+    c = [j for j, e in enumerate(deq) if e.get("op") == "cas" and e.get("var") == "q.head"]
+    return bool(c) and any(e.get("op") == "ld" and e.get("var") == "q.tail" for e in deq[:c[0]])
+
+
+QUICK = ["lfq_2e1d1", "lfq_empty", "lfq_destroy", "lfq_recycle"]
+THOROUGH = ["lfq_2e1d", "lfq_lag", "lfq_empty", "lfq_destroy", "lfq_recycle", "lfq_stale_user"]
+K_QUICK = ["lfq_2e1d1"]
+K_THOROUGH = ["lfq_2e1d1", "lfq_stale_user"]
+DEMOS = [os.path.join(VERIF, "scenarios", f) for f in ("lfq_finding_stale_tail.sched", "lfq_finding_stale_tail_recycle.sched")]
+
+
+# ------------------------------------------------------------------ classification of the known finding
+def _fail_node(stderr):
+    m = re.search(r"UAF access to quarantined (\w+) at rculfqueue\.h:\d+", stderr or "")
+    return m.group(1) if m else None
+
+
+def _stale_tail_failure(ctx, replay):
+    """A run aborted by the runtime's use-after-free oracle is the known finding iff its recorded prefix is a behaviour of Lfq that ends
+    with the failing thread at e_cas holding, as its tail pointer, the freed node named by the oracle, removed while q.tail pointed at it."""
+    mp = os.path.join(replay, "meta.json"); tp = os.path.join(replay, "trace.ndjson")
+    if not (os.path.exists(mp) and os.path.exists(tp)):
+        return False
+    meta = json.load(open(mp)); node = _fail_node(meta.get("stderr"))
+    if not node or "scenario" not in meta:
+        return False
+    sc = load_scenario(meta["scenario"]); tso = meta.get("tso", 1)
+    ev = normalize(read_trace(tp))
+    if not ev or ev[-1]["op"] != "fail":
+        return False
+    ev[-1]["var"] = node
+    c = conc.consts_for(LFQ_K, sc, tso, True); c["__spec__"] = "Lfq"
+    mod = gen_trace_module("LfqTrace", "Lfq", "TVK_%s_%d" % (sc["name"], tso), c, invariants=LFQ_K["invariants"])
+    p = os.path.join(replay, "classify.ndjson"); write_ndjson(p, ev)
+    v = validate_trace_file(mod, p, tag="tvk_" + ctx.pid, timeout=300)
+    ctx.states += v.tlc.distinct; ctx.transitions += v.tlc.states
+    # the fail event is consumable only by the stale-tail disjunct of LfqTrace (which sets the stale ghost): a fully explained trace is the pattern
+    ok = (v.accepted or v.violation == "invariant NoStaleTailDeref") and v.maxl >= len(ev)
+    json.dump(dict(meta, classification={"stale_tail_pattern": ok, "node": node, "events_explained": v.maxl, "events": len(ev)}), open(mp, "w"), indent=1)
+    return ok
+
+
+def _install_classifier(ctx):
+    orig = ctx.violation
+
+    def violation(what, replay, key=None):
+        if key is None and not HELPTAIL:
+            if "invariant NoStaleTailDeref" in what or (replay and os.path.isdir(replay) and _stale_tail_failure(ctx, replay)):
+                key = KEY
+                ctx.extra["known_finding_hits"] = ctx.extra.get("known_finding_hits", 0) + 1
+                if not any(f.get("key") == KEY for f in ctx.findings):
+                    what = "[finding %s, not listed as known] %s" % (KEY, what)
+        return orig(what, replay, key)
+    ctx.violation = violation
+
+
+def known_probe(ctx, sc):
+    """Design level: TLC looks for the stale-tail dereference (NoStaleTailDeref only; not counted as a model-checking configuration)."""
+    c = conc.consts_for(LFQ_K, sc, True, False)
+    mod = gen_mc(sc, "mc_k", c, cfg_lines=["SPECIFICATION Spec", "INVARIANT NoStaleTailDeref", "CONSTRAINT SBBound", "CHECK_DEADLOCK FALSE"])
+    r = _run_tlc(mod, timeout=900, heap="8g")
+    ctx.states += r.distinct; ctx.transitions += r.states
+    log("  [TLC] %s known-finding probe: %s, %d distinct states, %.0fs" % (sc["name"], r.violation or ("none" if r.ok else r.error), r.distinct, r.wall))
+    if r.violation == "invariant NoStaleTailDeref":
+        d = ctx.viol_dir(); shutil.copy(r.log, os.path.join(d, "tlc.log"))
+        ctx.violation("TLC: invariant NoStaleTailDeref violated in %s: an enqueuer dereferences, through its tail pointer, a freed node that was removed while "
+                      "q.tail still pointed at it (design-level counterexample in tlc.log)" % mod, d)
+    elif r.violation:
+        d = ctx.viol_dir(); shutil.copy(r.log, os.path.join(d, "tlc.log"))
+        ctx.violation("TLC: %s in %s" % (r.violation, mod), d)
+    elif not r.ok:
+        raise RuntimeError("TLC failed on %s: %s\n%s" % (mod, r.error, r.out[-1500:]))
+    return r
+
+
+def demo_replay(ctx, exe, wd, DEMO):
+    """Replay the stored schedule of the finding on the real code: the runtime's use-after-free oracle fires at the stale cmpxchg (or, with a
+    runtime that does not re-check quarantine when the access executes, the recorded trace violates NoStaleTailDeref)."""
+    if not os.path.exists(DEMO):
+        return
+    lines = open(DEMO).read().split("\n")
+    scn = [l.split(":", 1)[1].strip() for l in lines if l.startswith("# scenario:")][0]
+    sched = [l.strip() for l in lines if l.strip() and not l.startswith("#")]
+    sc = load_scenario(scn); tso = 1
+    pf = conc.program_file(LFQ, sc, os.path.join(wd, "prog_%s.txt" % sc["name"]))
+    sp = os.path.join(wd, "demo_sched.txt"); open(sp, "w").write("#auto-benign\n" + "\n".join(sched) + "\n")
+    tp = os.path.join(wd, "demo.ndjson")
+    rc, so, se = run_driver(exe, [0, tso, tp, pf], env={"VRT_SCHED": sp}, timeout=30)
+    meta = {"seed": 0, "tso": tso, "rc": rc, "stderr": se[-500:], "scenario": sc["name"], "schedule": sched, "known_key": KEY, "env": {}}
+    if rc != 0 and _fail_node(se):
+        d = ctx.viol_dir(); shutil.move(tp, os.path.join(d, "trace.ndjson")); json.dump(meta, open(os.path.join(d, "meta.json"), "w"), indent=1)
+        shutil.copy(pf, os.path.join(d, "prog.txt"))
+        m = re.search(r"VRT-FAIL (.*)", se)
+        ctx.violation("oracle failure on the real code under the stored schedule %s: %s" % (os.path.basename(DEMO), m.group(1) if m else se[-200:]), d)
+        return
+    if rc == 0:
+        before = ctx.extra.get("known_finding_hits", 0)
+        conc.validate(ctx, LFQ_K, sc, tso, [(0, read_trace(tp))], wd, "tvk_demo")
+        for v in range(1, ctx.nviol + 1):       # make the recorded directory replayable with its schedule
+            mp = os.path.join(ctx.outdir, "viol-%d" % v, "meta.json")
+            if os.path.exists(mp):
+                mm = json.load(open(mp))
+                if mm.get("scenario") == sc["name"] and mm.get("seed") == 0 and "schedule" not in mm:
+                    mm.update(schedule=sched, known_key=KEY); json.dump(mm, open(mp, "w"), indent=1)
+        if ctx.extra.get("known_finding_hits", 0) != before:
+            return
+    ctx.notes.append("stored schedule of finding %s no longer reproduces it on this tree (rc=%d %s)" % (KEY, rc, se.strip()[-120:]))
+    log("  [demo] finding %s not reproduced by %s on this tree (rc=%d)" % (KEY, os.path.basename(DEMO), rc))
+
+
+# ------------------------------------------------------------------ the check
+def run_scenarios(ctx, comp, scenarios, nseeds, nsim, both_modes, mc_timeout=3000):
+    """conc.run_component with a choice of memory modes: SC and TSO runs coincide for this component (no buffered stores), so the quick
+    tier alternates the mode per scenario instead of running both."""
+    wd = os.path.join(ctx.outdir, "work"); shutil.rmtree(wd, ignore_errors=True); os.makedirs(wd)
+    exe = build_driver("d_lfq", comp["driver"], tag=ctx.pid + "_d_lfq")
+    configure(detect_variant(ctx, exe, wd))
+    if HELPTAIL:
+        ctx.notes.append("the library under test (%s) implements the repaired dequeue (helps q->tail before moving q->head): checked against Lfq with "
+                         "HelpTail = TRUE, no known-finding exemption" % REPO)
+        log("  [variant] repaired dequeue detected: HelpTail = TRUE")
+    only = os.environ.get("VERIF_SCEN")
+    if not HELPTAIL:
+        for dm in DEMOS:
+            demo_replay(ctx, exe, wd, dm)
+    for k, scn in enumerate(scenarios):
+        if only and scn not in only.split(","):
+            continue
+        if len(ctx.violations) >= conc.MAXV:
+            break
+        sc = load_scenario(scn)
+        r = conc.model_check(ctx, comp, sc, timeout=mc_timeout)
+        log("  [TLC] %s: %d distinct states, %.0fs, %s" % (sc["name"], r.distinct, r.wall, "ok" if r.ok else (r.violation or r.error)))
+        skip = ("Terminating", "fl") + (() if HELPTAIL else ("d_ldt", "d_help"))
+        ctx.extra.setdefault("actions_never_taken", {})[sc["name"]] = [a for a, v in r.coverage.items() if v[0] == 0 and a not in skip]
+        for tso in ((0, 1) if both_modes else (1 - k % 2,)):
+            if len(ctx.violations) >= conc.MAXV:
+                break
+            seeds = [ctx.seed * 100003 + j for j in range(nseeds)]
+            runs, fails, pf = conc.run_batch(ctx, comp, exe, sc, tso, seeds, wd)
+            conc.report_failures(ctx, comp, fails)
+            if runs:
+                ctx.sample({"kind": "recorded execution of the real code (first events)", "scenario": sc["name"], "tso": tso, "seed": runs[0][0],
+                            "events": [e for e in runs[0][1][:12]]})
+            conc.validate(ctx, comp, sc, tso, runs, wd, "tv_%s_%d" % (sc["name"], tso))
+            if nsim:
+                conc.spec_to_code(ctx, comp, exe, sc, tso, nsim, wd)
+        log("  [conf] %s: traces validated so far %d, events %d, replays %d, violations %d" % (sc["name"], ctx.traces, ctx.events, ctx.replays, len(ctx.violations)))
+    shutil.rmtree(wd, ignore_errors=True)
 
 
 def run(ctx):
     q = ctx.quick()
-    conc.run_component(ctx, LFQ, QUICK if q else THOROUGH, nseeds=60 if q else 2000, nsim=24 if q else 400)
+    _install_classifier(ctx)
+    run_scenarios(ctx, LFQ, QUICK if q else THOROUGH, nseeds=60 if q else 1500, nsim=24 if q else 300, both_modes=not q)
+    if not HELPTAIL:
+        only = os.environ.get("VERIF_SCEN")
+        for scn in (K_QUICK if q else K_THOROUGH):
+            if only and scn not in only.split(","):
+                continue
+            known_probe(ctx, load_scenario(scn))
+    nt = list(ctx.extra.get("actions_never_taken", {}).values())
+    ctx.extra["actions_never_taken_in_any_scenario"] = sorted(set.intersection(*[set(v) for v in nt])) if nt else []
 
 
 def replay(ctx, path):
-    conc.replay(ctx, LFQ, path)
+    _install_classifier(ctx)
+    wd = os.path.join(ctx.outdir, "replay_probe"); os.makedirs(wd, exist_ok=True)
+    configure(detect_variant(ctx, build_driver("d_lfq", "d_lfq.c", tag=ctx.pid + "_d_lfq"), wd))
+    meta = json.load(open(os.path.join(path, "meta.json"))) if os.path.exists(os.path.join(path, "meta.json")) else {}
+    if "scenario" not in meta:      # TLC counterexample only (design level): re-run the model checker on that configuration
+        m = re.search(r"MC_(\w+?)_mc(_k|_ht)?\.tla", open(os.path.join(path, "tlc.log")).read())
+        sc = load_scenario(m.group(1))
+        (known_probe(ctx, sc) if m.group(2) == "_k" else conc.model_check(ctx, LFQ, sc))
+        return
+    conc.replay(ctx, LFQ_K if meta.get("known_key") and not HELPTAIL else LFQ, path)
